@@ -53,9 +53,42 @@ def _check(n, edges, k, roots, allow_empty, prim, as_list=False):
     return None
 
 
+def _check_grid(h, w, k, roots, allow_empty):
+    """public 2-D entry: IntArray2D + roots given as (y, x) coordinates (with None holes)."""
+    from cspuz import graph as G
+    n = h * w
+    edges = graphs.grid_edges(h, w)
+
+    def builder(s):
+        arr = s.int_array((h, w), 0, k - 1)
+        return lambda: G.division_connected(s, arr, k, roots=roots, allow_empty_group=allow_empty)
+    decls, cs, base, _ = graphs.real_program(builder)
+    flat = None if roots is None else [None if r is None else r[0] * w + r[1] for r in roots]
+    for lab in itertools.product(range(k), repeat=n):
+        got = exprio.solve_prog(decls, cs, base, {f"i{i}": lab[i] for i in range(n)}) is not None
+        want = spec(n, edges, k, lab, flat, allow_empty)
+        if got != want:
+            return list(lab), got, want
+    return None
+
+
 def search(ctx, why, budget=None):
     found = {}
     rng = ctx.rng
+    for (h, w, k, roots) in ((1, 3, 2, [None, (0, 2)]), (2, 2, 3, [None, (0, 0), (1, 1)]), (2, 3, 2, [(1, 2), None]),
+                             (2, 2, 2, [None, None]), (3, 1, 3, [(2, 0), None, (0, 0)]), (2, 3, 3, [None, (0, 0), (1, 2)])):
+        for allow_empty in (False, True):
+            if "grid" in found or k ** (h * w) > 800:
+                continue
+            try:
+                bad = _check_grid(h, w, k, roots, allow_empty)
+            except Exception as e:
+                bad = ("exception", core.err_name(e), str(e)[:200])
+            ctx.count("search:grid")
+            if bad:
+                found["grid"] = Finding("divconn:grid-roots", f"division_connected on a {h}x{w} IntArray2D, k={k}, roots={roots}, "
+                                        f"allow_empty_group={allow_empty}, labels={bad[0]}: satisfiable={bad[1]} expected {bad[2]}",
+                                        {"grid": [h, w], "k": k, "roots": roots, "allow_empty": allow_empty, "labels": bad[0]})
     for (n, edges) in graphs.small_graphs(rng, budget or ctx.n(10, 30), 4):
         if n > 4:
             continue
@@ -88,5 +121,9 @@ def search(ctx, why, budget=None):
 
 
 def replay(ctx, data):
+    if "grid" in data:
+        roots = None if data["roots"] is None else [None if r is None else tuple(r) for r in data["roots"]]
+        bad = _check_grid(data["grid"][0], data["grid"][1], data["k"], roots, data["allow_empty"])
+        return Finding("divconn:replay", f"still fails: {bad}", data) if bad else None
     bad = _check(data["n"], [tuple(e) for e in data["edges"]], data["k"], data["roots"], data["allow_empty"], data["prim"], data.get("as_list", False))
     return Finding("divconn:replay", f"still fails: {bad}", data) if bad else None
